@@ -1,4 +1,4 @@
-"""C19 -- pattern matching and restructuring (clauses R19.1-R19.8)."""
+"""C19 -- pattern matching and restructuring (clauses R19.1-R19.9)."""
 from __future__ import annotations
 
 import ast
@@ -18,6 +18,7 @@ EXPLANATION = (
     "before it) crosses an isinstance(node, ast.*) test, so a wildcard is never bound to an empty optional field.  R19.6: no type filter in front of the statement-list scan "
     "excludes a constructor that owns a statement suite in the interpreter's grammar (ExceptHandler, match_case included).  "
     "Completeness of reported matches and meaning-preserving substitution are not decided."
+    ' R19.9: the goal is re-indented relative to the START of the match region.'
 )
 ASSUMPTIONS = ["node.region is exact (rests on C08)"]
 
@@ -122,6 +123,7 @@ def check(ctx, res) -> None:
     _suite_owner_rule(ctx, res)
     _pure_filter_rule(ctx, res)
     _paren_preserving_rule(ctx, res)
+    _indent_anchor_rule(ctx, res)
 
 
 def _check_main(ctx, res) -> None:
@@ -418,3 +420,25 @@ def _paren_preserving_rule(ctx, res) -> None:
                 "the bound text passes through a parenthesis-restoring step before substitution" if ok else
                 "the text bound to a wildcard is substituted into the goal as the bare node region: `(a + b) * c` restructured with `${x} * ${y}` -> "
                 "`${y} * ${x}` becomes `c * a + b` (the region of `a + b` does not contain its parentheses)", function=f.qualname)
+
+
+def _indent_anchor_rule(ctx, res) -> None:
+    """R19.9: continuation lines of a multi-line goal are indented like the line where the match STARTS (that line's
+    indentation is what the first line of the replacement inherits).  The offset handed to the re-indenting helper is
+    therefore the start component of the match region."""
+    from .common import pair_component
+    idx = ctx.idx
+    f = idx.need_func("rope.refactor.restructure._ChangeComputer._get_matched_text")
+    calls = [c for c in calls_in(f.node) if call_name(c) == "_auto_indent" and c.args]
+    if not calls:
+        raise AnalysisError("anchor=_ChangeComputer._get_matched_text: call of _auto_indent not found")
+    for k, c in enumerate(calls, 1):
+        comp = pair_component(f.node, c.args[0], {"get_region"})
+        if comp is None:
+            res.undecided("R19.9", f"_get_matched_text|indent-anchor#{k}", f"{f.unit.rel}:{c.lineno}", f"`{ast.unparse(c.args[0])}` is not a component of the match region")
+            continue
+        res.add("R19.9", f"_get_matched_text|indent-anchor#{k}", comp == 0, f"{f.unit.rel}:{c.lineno}",
+                "the replacement is re-indented relative to the line where the match starts" if comp == 0 else
+                f"the replacement is re-indented relative to `{ast.unparse(c.args[0])}`, the END of the match: when the match spans several lines whose last line "
+                "is indented differently from the first (an if/else, a call with a continuation line) the continuation lines of the goal get the wrong "
+                "indentation and the result does not parse", function=f.qualname)
